@@ -40,6 +40,8 @@ def run(ctx, rep):
     rep.rule("R14-READERS", "the trace level is read only in the reviewed functions", floor=7)
     rep.rule("R14-LEVEL", "Tracing::trace_level is total over 3 kinds x 2 contexts and returns the stored level or Silent", floor=3)
     rep.rule("R14-ERASE", "at every reader the level-selected alternatives are equal modulo trace wrappers and message text", floor=6)
+    rep.rule("R14-MSG", "the user expressions a `trace` evaluates (label, arguments) are the same at every level", floor=2)
+    rep.guarded("R14-MSG", lambda: r_msg(sh, rep))
     rep.rule("R14-DUAL", "the only branch on `otherwise.is_some()` chooses between two decoders that agree per type kind (R01-CAST)", floor=2)
     rep.guarded("R14-READERS", lambda: r_readers(sh, rep))
     rep.guarded("R14-LEVEL", lambda: r_level(sh, rep))
@@ -322,3 +324,36 @@ def r_dual(sh, rep):
     if not sites:
         rep.bad("R14-DUAL", "branch-point-found", GEN, "the reviewed branch on `otherwise` in CodeGenerator::assignment was not found (anchor)")
     rep.guarded("R14-DUAL", lambda: cast_rules.rule_cast(sh, rep, "R14-DUAL"))
+
+
+def r_msg(sh, rep):
+    """R14-ERASE compares the level-selected results modulo the Trace wrapper *and its message*: that is sound only if
+    evaluating the message cannot matter. The message of a user `trace` is built from user expressions — the label and
+    the arguments — and the generated code evaluates it strictly. So the set of user expressions that reach the typed
+    program must not depend on the level: a label or an argument that fails (10 / x, a partial helper) otherwise aborts
+    the program at some levels only. Read off infer_trace: which of the inferred pieces each level's result mentions."""
+    f = find_method(sh.file(TE), "ExprTyper", "infer_trace")
+    lvl = {n["pat"]["name"] for n in walk(f["body"]) if n["k"] == "Local" and n["pat"]["k"] == "Ident" and n.get("init") is not None and "trace_level" in sh.nsrc(TE, n["init"])}
+    ms = [m for m in matches_in(f["body"]) if ("trace_level" in sh.nsrc(TE, m["e"]) or sh.nsrc(TE, m["e"]) in lvl) and len(m["arms"]) >= 3]
+    if not ms:
+        raise AnchorMissing("match on trace_level in infer_trace")
+    # pieces: the typed label, and whatever local is built from the typed arguments
+    params = [i["pat"].get("name") for i in f["sig"]["inputs"] if isinstance(i.get("pat"), dict)]
+    label = "label" if "label" in params else None
+    argl = [n["pat"]["name"] for n in walk(f["body"]) if n["k"] == "Local" and n["pat"]["k"] == "Ident" and n.get("init") is not None and re.search(r"typed_arguments|arguments", sh.nsrc(TE, n["init"])) and n["pat"]["name"] not in ("typed_arguments",)]
+    per = {}
+    for v, arm, alt in arm_table(ms[-1]):
+        paths = {x["p"] for x in walk(arm["body"]) if x.get("k") == "Path"}
+        used = set()
+        if label and label in paths:
+            used.add("label")
+        if paths & set(argl):
+            used.add("arguments")
+            used.add("label")  # the verbose text is built from the label as well
+        per[v] = used
+    levels = ["Silent", "Compact", "Verbose"]
+    if not all(l in per for l in levels):
+        raise AnchorMissing("arms for Silent / Compact / Verbose in infer_trace (found %s)" % sorted(per))
+    for a, b in (("Silent", "Compact"), ("Compact", "Verbose")):
+        diff = sorted(per[a] ^ per[b])
+        rep.check(not diff, "R14-MSG", "infer_trace#%s-vs-%s#same-user-expressions" % (a, b), sh.loc(TE, ms[-1]), "at %s the typed program keeps %s of the trace, at %s it keeps %s: the %s evaluated only at the higher level — strictly, in the generated code — and a failing one (`trace @\"r\": 10 / x`, a partial label helper) aborts the program there and nowhere else" % (a, sorted(per[a]) or "nothing", b, sorted(per[b]), " and ".join(diff) + (" is" if len(diff) == 1 else " are")), sample={a: sorted(per[a]), b: sorted(per[b])})
